@@ -167,8 +167,16 @@ class replace(repo_ops.replace, install, uninstall):
         # literal same fullver replacements), then wipe the unmerge
         # that minimizes the window for races, and gets the data in place
         # should unmerge somehow die.
-        uninstall.finalize_data(self)
-        install.finalize_data(self)
+        update_mtime(self.repo.location)
+        if normpath(self.remove_path) == normpath(self.install_path):
+            # same version: the old tree has to leave the path first
+            doomed = self._hide_removed()
+            install.finalize_data(self)
+        else:
+            install.finalize_data(self)
+            doomed = self._hide_removed()
+        shutil.rmtree(doomed)
+        update_mtime(self.repo.location)
         return True
 
 
